@@ -41,12 +41,14 @@ def run(ctx):
     ctx.rule("R1", "atomic checkpoint protocol: torch.save only to a temp file in the target directory, os.replace afterwards, reached by every save_checkpoint")
     ctx.rule("R2", "flush precedes checkpoint on every path; flush chain reaches every handle")
     ctx.rule("R3", "checkpoint writer/reader key agreement per nested dictionary")
+    ctx.rule("R4", "loop-carried state of every engine's step is checkpointed and restored, or re-established by initialize(), or an inventoried scratch/report attribute")
     ctx.rule("R5", "every sink opened on the resume path positions itself from step_offset")
     ctx.rule("R6", "RNG pairing: captured, restored after construction and before run, no seed on resume, global generator only")
     ctx.rule("R7", "absolute step labels: loop over range(step_offset, steps); step_offset never added to an absolute index")
     ctx.rule("R8", "resume does not repeat one-time initialisation")
     _r1(ctx, repo, md, nad)
     _r2(ctx, md)
+    _r4(ctx, repo)
     _r3(ctx, repo, md, nad)
     _r5(ctx, md)
     _r6(ctx, repo, md, nad)
@@ -670,3 +672,93 @@ def _r8(ctx, md, nad):
     last_calls = [callee_attr(c) for c in calls_in(ni.body[-1])]
     ctx.check("_apply_resume_state" in last_calls, "R8", nad, ni.body[-1], "NonadiabaticDynamicsBase.initialize", ni.body[-1],
               "restored surface-hopping state is applied after all re-initialisation", "NonadiabaticDynamicsBase.initialize re-initialises state after _apply_resume_state")
+
+
+# attributes that are loop-carried in the dataflow sense but carry no physical state: (class or *, attribute) -> reason
+R4_EXCEPTIONS = {
+    ("*", "_arange_cache"): "shape-keyed constant cache (index ranges); rebuilt on demand",
+    ("*", "_eye_cache"): "shape-keyed constant cache (identity matrices); rebuilt on demand",
+    ("*", "_coords_prev"): "scratch buffer: allocated once, fully overwritten by copy_ before it is read in the same step",
+    ("*", "_mos_prev"): "scratch buffer: allocated once, fully overwritten by copy_ before it is read in the same step",
+    ("*", "hop_log"): "report-only list printed at the end of run(); does not influence the trajectory (a resumed run reports the hops since the resume)",
+}
+
+
+def _r4(ctx, repo):
+    import ast as _ast
+    from ..loopstate import LoopState
+    MDm, NADm = "seqm/MolecularDynamics.py", "seqm/NonadiabaticDynamics.py"
+    ls = LoopState(repo, [MDm, NADm])
+    engines = [(MDm, "Molecular_Dynamics_Basic"), (MDm, "Molecular_Dynamics_Langevin"), (MDm, "XL_BOMD"), (MDm, "KSA_XL_BOMD"), (MDm, "XL_ESMD"), (NADm, "SurfaceHoppingDynamics")]
+    n = 0
+    for rel, cname in engines:
+        m = repo.mod(rel)
+        if cname not in m.classes:
+            raise AnalysisError(f"engine class {cname} not found")
+        cctx = (m, m.classes[cname])
+        res = ls.loop_carried(m, cname)
+        if res is None:
+            raise AnalysisError(f"{cname}: step hook not found")
+        lc = res[0]
+        if len(lc) < 3:
+            raise AnalysisError(f"{cname}: implausibly small loop-carried set {lc}")
+        saved = ls.source_attrs(ls.chain(cctx, ["save_checkpoint"]))
+        rfuncs = ls.chain(cctx, ["run_from_checkpoint", "_restore_molecule_from_ckpt", "_load_checkpoint_base", "_apply_resume_state"])
+        restored = ls.stored_attrs(rfuncs) | ls.constructor_attrs(rfuncs)
+        ifuncs = ls.chain(cctx, ["initialize"])
+        init_w = ls.derived_attrs(ifuncs)
+        ext = set()
+        for mm, q, f in ifuncs:
+            for call in _ast.walk(f):
+                if isinstance(call, _ast.Call):
+                    ext |= {k.split(".")[1] for k in ls.external(call)[1]}
+        for a in lc:
+            name = a.split(".")[1]
+            n += 1
+            exc = R4_EXCEPTIONS.get((cname, name)) or R4_EXCEPTIONS.get(("*", name))
+            if name in saved and name in restored:
+                ctx.ok("R4", f"{cname}", f"{a}: loop-carried, written by the checkpoint writer chain and assigned on the resume path")
+            elif name in init_w or name in ext:
+                ctx.ok("R4", f"{cname}", f"{a}: loop-carried, recomputed by initialize() from the restored molecule (directly or through the electronic-structure call) before the first resumed step")
+            elif exc:
+                ctx.ok("R4", f"{cname}", f"{a}: inventoried non-state attribute ({exc})", nontrivial=False)
+            elif _reset_to_init_constant(ls, cctx, a):
+                ctx.ok("R4", f"{cname}", f"{a}: step-local, unconditionally reset at the end of every step to the constant the constructor gives it")
+            else:
+                stepf = ls.resolve(cctx, "_do_integrator_step")[0]
+                ctx.fail("R4", stepf[0], stepf[2], stepf[1], f"{cname}: loop-carried {a}",
+                         f"{cname}: `{a}` carries a value from one step into the next (read in an iteration before that iteration has written it, and written in the iteration) "
+                         f"but is " + ("not written into the checkpoint" if name not in saved else "written into the checkpoint but never assigned on the resume path") +
+                         f" and not re-established by initialize(): a run resumed from a checkpoint continues from a different state than the uninterrupted run")
+    ctx.floor("R4", 30)
+
+
+def _reset_to_init_constant(ls, cctx, a):
+    """`self.X = <constant>` is the last top-level write of X in the step function and __init__ assigns the same constant"""
+    import ast as _ast
+    if not a.startswith("self."):
+        return False
+    name = a.split(".")[1]
+    res = ls.resolve(cctx, "_do_integrator_step")
+    if not res:
+        return False
+    f = res[0][2]
+    last_const = None
+    for st in f.body:
+        writes_x = any(isinstance(x, _ast.Attribute) and x.attr == name and norm(x.value) == "self" and isinstance(x.ctx, _ast.Store) for x in _ast.walk(st))
+        if not writes_x:
+            continue
+        if isinstance(st, _ast.Assign) and len(st.targets) == 1 and norm(st.targets[0]) == a and isinstance(st.value, _ast.Constant):
+            last_const = st.value.value
+            have = True
+        else:
+            last_const = "<non-constant>"
+    if last_const == "<non-constant>" or "have" not in dir():
+        return False
+    for m_, q_, f_ in ls.chain(cctx, ["__init__"]):
+        for st in _ast.walk(f_):
+            if isinstance(st, (_ast.Assign, _ast.AnnAssign)):
+                tg = st.targets if isinstance(st, _ast.Assign) else [st.target]
+                if any(norm(t) == a for t in tg) and isinstance(st.value, _ast.Constant) and st.value.value == last_const:
+                    return True
+    return False
